@@ -6,6 +6,7 @@
   `choice(l)` ∈ l.
 -/
 import Sq.Machine
+import SqLemmas.RandLemmas
 namespace SqProps.C19
 open Sq
 
@@ -87,5 +88,23 @@ theorem shuffle_new_list_arg_unchanged (a : Nat) (xs : List Val) (s : BState) (v
         · rw [ih]; simp
         · rfl
     exact ⟨(b_shuffle.go (xs.length - 1) xs s.rng).1, by simp [Heap.get?], key _ _ _⟩
+
+/-- **[B] rand() ∈ [0, 1)** for every generator state: a non-negative decimal `c · 10^(-k)` with `c < 10^k`;
+    no object changes -/
+theorem rand0_range (s : BState) :
+    ∃ (c k : Nat) (s' : BState), b_rand [] s = .ok (.dec { neg := false, coeff := c, exp := -(k : Int) } true, s') ∧
+      c < 10 ^ k ∧ s'.heap = s.heap := by
+  obtain ⟨c, k, s', h, hlt, hh⟩ := randUnit_range s
+  exact ⟨c, k, s', by simpa [b_rand] using h, hlt, hh⟩
+
+/-- **[B] shuffle returns a permutation** of its argument (as a new list), for every generator state -/
+theorem shuffle_is_permutation (a : Nat) (xs : List Val) (s : BState) (v : Val) (s' : BState)
+    (hg : s.heap.get? a = some (.list xs))
+    (h : b_shuffle [.ref a] s = .ok (v, s')) :
+    ∃ ys, s'.heap.get? s.heap.size = some (.list ys) ∧ v = .ref s.heap.size ∧ List.Perm ys xs := by
+  simp only [b_shuffle, hg, allocList, Heap.alloc] at h
+  simp at h
+  obtain ⟨rfl, rfl⟩ := h
+  exact ⟨(b_shuffle.go (xs.length - 1) xs s.rng).1, by simp [Heap.get?], rfl, shuffle_go_perm _ _ _⟩
 
 end SqProps.C19
